@@ -23,7 +23,7 @@ NOTE = {
  "C16": "As C08; std containers' own panic-freedom assumed; frame depth < 2^64 - 1; 'standard devices attached' abstracted as arbitrary device results (device bodies not verified); run_with_limit covered only through the bounded C13 obligations.",
  "C19": "Bounded and partial: only the binary reader's slice helpers (<= 8 bytes). Not covered: BinaryFormat::deserialize as a whole, TextFormat::deserialize, re-serialization, link, load_obj_file.",
  "C23": "Bounded: 1 label, one-letter name. That pass 1 builds the table correctly is assumed.",
- "C25": "Bounded: <= 8 bytes, <= 2 newlines. SourceInfo::from_string's newline scan and trimming in line_span/read_line assumed (str searching).",
+ "C25": "Assumed: SourceInfo::from_string builds a strictly increasing newline table ending with the text length (str searching); get_line's contract in the Verus unit (checked bounded by Kani, <= 4 entries); String::len <= isize::MAX. Bounded: trimming in line_span/read_line (<= 4 ASCII bytes, <= 1 newline). Trusted: Verus/Z3/vstd, Kani/CBMC.",
  "C26": "Call sites (which spans each assembler/linker error carries; 'lies within the source') assumed, except replace_pc_offset's label span (thorough tier).",
  "C27": "As C08; debug frames: <= 1 prior frame, <= 2 parameters, no nested signature tables (HashMap<u16,_> lookups with a registered signature are not explored).",
  "C28": "As C08; observer map bounded (2 updates); what is recorded for device-page reads is not constrained (the property speaks of non-I/O addresses).",
@@ -32,7 +32,7 @@ NOTE = {
  "C34": "Assumed: try_generate_time returns a value inside the configured range (rand crate); ranges must be subsets of [1, inf) for the interval lemma; same-seed reproducibility (rand) not claimed.",
  "C35": "rustc/Kani/CBMC/CaDiCaL trusted; std verified through",
 }
-ENGINE = {"C02": "verus+kani", "C01": "kani+verus", "C34": "verus+kani"}
+ENGINE = {"C02": "verus+kani", "C01": "kani+verus", "C34": "verus+kani", "C25": "verus+kani"}
 NA = {
  "C03": "Text -> tokens goes through the logos-generated DFA and str::to_uppercase/parse: Verus has no str byte reasoning, Kani needed 19 GB for a 3-byte literal; the metamorphic statement is relational over texts. No contract within reach decides it.",
  "C04": "The panics live in byte/char scanning (lex_str_literal: lines, find, slicing) behind the logos DFA; Kani on lex_str_literal with 3 symbolic bytes: 41 GB, no verdict; no honest bounded stand-in exists below 3 bytes.",
